@@ -1,7 +1,7 @@
 (* Entry points of the correspondence check: one call per case record written by the
    harness.  Everything here is executable; nothing is proved in this file. *)
 From VJ Require Import Model.Str Model.Json Model.Ast Model.State Model.Util Model.Text
-  Model.Directive Model.Lower Model.Visitor Model.Types Model.Options Spec.Plain Spec.Pragma Spec.OutViews Spec.DcViews Lemmas.NodeInd.
+  Model.Directive Model.Lower Model.Visitor Model.Types Model.Options Spec.Plain Spec.Pragma Spec.OutViews Spec.DcViews Spec.Site Spec.SiteCheck Lemmas.NodeInd.
 From VJ Require Import Gen.Tables.
 
 Definition jfield_d (k : String.string) (j : jv) : jv :=
@@ -116,6 +116,23 @@ Definition extras (c : jv) (model_out : jv) : list (str * str) :=
     (s_ "alt_same", b2s (if alt_ok then jv_eqb (jfield_d "output" alt) real_j
                                         && strs_eqb (sort_strs (jstrs (jfield_d "diags" alt))) (sort_strs rdiags)
                          else true));
+    (* the probe site `const __site = <element>`: source description vs real / model output *)
+    (s_ "site", match find_site input, find_site real with
+                | Some el, Some o =>
+                    match check_site E 40 el o ++ order_fail E el o with
+                    | [] => [49]
+                    | fs => join [44] fs
+                    end
+                | _, _ => s_ "none"
+                end);
+    (s_ "site_model", match find_site input, find_site model with
+                      | Some el, Some o =>
+                          match check_site E 40 el o ++ order_fail E el o with
+                          | [] => [49]
+                          | fs => join [44] fs
+                          end
+                      | _, _ => s_ "none"
+                      end);
     (s_ "alt_strip", b2s (if alt_ok then
                             (* main run: optimize on; alt: optimize off *)
                             jv_eqb (enc (strip_hints real)) (jfield_d "output" alt)
